@@ -125,6 +125,11 @@ func (C08) Gen(r *simrt.RNG, tier string) core.Case {
 				t.Out[i].Name = nameFor(t.Out[i].Type)
 			}
 		}
+		if r.Chance(1, 3) {
+			// a field of type error is an output like any other (only a trailing error
+			// result of the function itself is not)
+			t.Out = append(t.Out, world.Slot{Label: world.Label{Name: "fail", Type: world.ErrIface}, Impl: world.ErrImpl})
+		}
 	}
 	w.Parties = append(w.Parties, t)
 	var args []int
@@ -213,7 +218,7 @@ func (C08) Gen(r *simrt.RNG, tier string) core.Case {
 			seen[world.SliceRaw] = true
 			a.Filter = append(a.Filter, world.SliceRaw) // permits []uint64, not the defined type B0
 		}
-		n := 1 + r.Intn(4)
+		n := r.Intn(5) // 0: a filter made from an empty list of types permits nothing
 		for i := 0; i < n; i++ {
 			ty := perm[r.Intn(len(perm))]
 			if !seen[ty] {
@@ -318,6 +323,9 @@ func c08Valid(w world.World) bool {
 			}
 		}
 		for _, s := range p.Out {
+			if pi == 0 && s.Type == world.ErrIface && s.Sub == "" && p.OutForm != world.FormPositional {
+				continue
+			}
 			if !okLabel(s.Label) {
 				return false
 			}
